@@ -513,6 +513,24 @@ func init() {
 			w.AnnotationPhases = false
 			w.Reset(fmt.Sprintf("%s/seed=%d", sc.Name, seed))
 			sc.Setup(w)
+			if strings.Contains(sc.Name, "sliced") && a.profile != "env" && a.profile != "big" && a.profile != "collide" && rng.Intn(2) == 0 {
+				// directed prefix: the deployment exists with its slices but no ObjectSet yet (the deployment controller
+				// has not run); the package is updated to an image that drops a slice, and the deployer's update of the
+				// deployment is answered with a server error
+				w.NotePackage(w.RunPass("pk", KPK("p1")))
+				w.EnvSetPackageImage(KPK("p1"), "img/valid:v2")
+				p := w.StartPass("pk", KPK("p1"))
+				for p.Pending != nil {
+					f := ""
+					if p.Pending.verb == "Update" && p.Pending.key.Kind == "ObjectDeployment" {
+						f = "before"
+					}
+					if w.Step(p, f) {
+						break
+					}
+				}
+				w.NotePackage(p)
+			}
 			faults := 3
 			conflicts := 2
 			updFaults := 2
